@@ -120,6 +120,7 @@ type Conn struct {
 	FailWriteAt  int   // 1-based index of the Write/Writev call that fails (0: never)
 	FailWriteErr error
 	FailPartial  bool  // the failing call accepts a prefix before failing
+	FailOnce     bool  // only the k-th call fails (a transient fault); otherwise the k-th and all later calls
 	FailFlushAt  int
 	FailFlushErr error
 	writeCalls   int
@@ -301,7 +302,7 @@ func (c *Conn) accept(n int) (int, error) {
 		c.Fired.WriteAfterClose++
 		return 0, closedErr("write")
 	}
-	if c.FailWriteAt > 0 && c.writeCalls >= c.FailWriteAt {
+	if c.FailWriteAt > 0 && (c.writeCalls == c.FailWriteAt || (c.writeCalls > c.FailWriteAt && !c.FailOnce)) {
 		c.Fired.WriteErrs++
 		k := 0
 		if c.FailPartial && n > 1 {
@@ -414,7 +415,7 @@ func (c *Conn) Flush() error {
 		c.log(Ev{Kind: EvFlushErr, Err: net.ErrClosed})
 		return closedErr("flush")
 	}
-	if c.FailFlushAt > 0 && c.flushCalls >= c.FailFlushAt {
+	if c.FailFlushAt > 0 && (c.flushCalls == c.FailFlushAt || (c.flushCalls > c.FailFlushAt && !c.FailOnce)) {
 		c.Fired.FlushErrs++
 		err := c.FailFlushErr
 		if err == nil {
